@@ -64,6 +64,14 @@ theorem keep_eq_slice (a : BV4) (amount off : Nat) (h : amount ≤ a.length) :
   · have : a.length - amount = 0 := by omega
     rw [this]; simp [Spec.slice, tab]
 
+/-- the rotate part: one input range, none at all for amount 0 -/
+theorem evalRewire_rot (a : BV4) (amount off : Nat) :
+    evalRewire (if amount > 0 then [(⟨amount, .input 0 off⟩ : Range)] else []) [some a] = Spec.slice a off amount := by
+  split
+  · rw [evalRewire_one, evalRange_input0]
+  · have : amount = 0 := by omega
+    subst this; simp [evalRewire_nil, Spec.slice, tab]
+
 theorem staticShiftCore_right_parts (fill : Fill) (a : BV4) (amount : Nat) (h : amount ≤ a.length) (hw : a.length < 2 ^ 64) :
     staticShiftCore .right fill a amount = Spec.slice a amount (a.length - amount) ++ fillPart .right fill a amount := by
   rw [staticShiftCore_eq]
@@ -78,7 +86,7 @@ theorem staticShiftCore_right_parts (fill : Fill) (a : BV4) (amount : Nat) (h : 
     · have : amount = 0 := by omega
       subst this; rfl
     · rw [wrap_sub_one (Nat.pos_of_ne_zero h0) hw, evalRewire_replicate_bit]
-  · simp only [fillPart]; rw [evalRewire_one, evalRange_input0]
+  · simp only [fillPart]; rw [evalRewire_rot]
 
 theorem staticShiftCore_left_parts (fill : Fill) (a : BV4) (amount : Nat) (h : amount ≤ a.length) (hw : a.length < 2 ^ 64) :
     staticShiftCore .left fill a amount = fillPart .left fill a amount ++ Spec.slice a 0 (a.length - amount) := by
@@ -90,7 +98,7 @@ theorem staticShiftCore_left_parts (fill : Fill) (a : BV4) (amount : Nat) (h : a
   · simp [fillRanges, fillPart, evalRewire_one, evalRange]
   · simp [fillRanges, fillPart, evalRewire_one, evalRange]
   · simp only [fillRanges, fillPart]; rw [evalRewire_replicate_bit]
-  · simp only [fillPart]; rw [wrap_sub h hw, evalRewire_one, evalRange_input0]
+  · simp only [fillPart]; rw [wrap_sub h hw, evalRewire_rot]
 
 theorem length_fillPart (dir : Dir) (fill : Fill) (a : BV4) (amount : Nat) : (fillPart dir fill a amount).length = amount := by
   cases dir <;> cases fill <;> simp [fillPart, length_slice]
@@ -181,13 +189,13 @@ theorem staticShiftCore_length_of_gt (dir : Dir) (fill : Fill) (a : BV4) (amount
     · exact rangesWidth_one _
     · exact rangesWidth_one _
     · exact rangesWidth_replicate _ _
-    · exact rangesWidth_one _
+    · simp only [show amount > 0 by omega, if_true]; exact rangesWidth_one _
   · simp only [shiftRangesCore, rightShiftRanges, if_neg hn, List.nil_append]
     cases fill
     · exact rangesWidth_one _
     · exact rangesWidth_one _
     · exact rangesWidth_replicate _ _
-    · exact rangesWidth_one _
+    · simp only [show amount > 0 by omega, if_true]; exact rangesWidth_one _
 
 /-! ## the lowering as it is now: the amount is normalised first -/
 
